@@ -93,6 +93,13 @@ def build(backend):
         add("bound-used-inner-first", f"ds.Select(lambda e: e.{x}('A')).Select(lambda js: (Range(0, 2).Select(lambda i: js.Count() + i), js.Count()))", [(cx, "A")], exact=False, headers=[hx], libs=[lx])
         add("bound-used-outer-first", f"ds.Select(lambda e: e.{x}('A')).Select(lambda js: (js.Count(), Range(0, 2).Select(lambda i: js.Count() + i)))", [(cx, "A")], exact=False, headers=[hx], libs=[lx])
         add("bound-used-inner-twice", f"ds.Select(lambda e: e.{x}('B')).Select(lambda js: (Range(0, 2).Select(lambda i: js.Count() + i), Range(0, 3).Select(lambda i: js.Count())))", [(cx, "B")], exact=False, headers=[hx], libs=[lx])
+        # an inject_code block that names the collection's own header (in its header_includes, its body_includes, or both): the
+        # header the container needs is still requested exactly once by the source file
+        for fld in (("header_includes",), ("body_includes",), ("header_includes", "body_includes")):
+            blk = {"metadata_type": "inject_code", "name": "hdrblk"}
+            for f_ in fld:
+                blk[f_] = [hx]
+            add("with-inject-block-naming-header:" + "+".join(fld), f"ds.Select(lambda e: e.{x}('A').Count())", [(cx, "A")], md=[blk], headers=[hx], libs=[lx])
         add("zero-args", f"ds.Select(lambda e: e.{x}().Count())", [], expect="refuse")
         add("two-args", f"ds.Select(lambda e: e.{x}('A', 'B').Count())", [], expect="refuse")
         add("nonstring-arg", f"ds.Select(lambda e: e.{x}(1).Count())", [], expect="refuse")
@@ -240,10 +247,12 @@ def post(outs, evs):
         # package level: headers and libraries exactly once
         inc = includes_of(o.pkg, c.backend) if o.pkg.files else None
         if inc is not None:
+            # an inject_code block that itself lists the header under body_includes legitimately adds one more line of the same text
+            extra = 1 if "body_includes" in info["kind"] else 0
             for h in info["headers"]:
-                if inc.count(h) != 1:
+                if not (1 <= inc.count(h) <= 1 + extra):
                     probs.append(f"header {h} included {inc.count(h)} times")
-            if len(inc) != len(set(inc)):
+            if len(inc) != len(set(inc)) and not extra:
                 probs.append(f"duplicate includes: {[h for h in set(inc) if inc.count(h) > 1]}")
             if c.backend == "atlas":
                 libs = libs_of(o.pkg)
